@@ -19,6 +19,8 @@ pub enum TOp {
     Display,
     Debug,
     Serialize,
+    /// serde build: continue with the instance restored from its own bytes (a clone otherwise)
+    RoundTrip,
 }
 
 #[derive(Clone, Debug, Serialize, Deserialize)]
@@ -99,6 +101,22 @@ pub fn check(c: &Case, ctx: &mut Ctx) -> Result<(), Failure> {
                     ind.clone_from_same(&other);
                 });
                 ("clone_from", r)
+            }
+            TOp::RoundTrip => {
+                fp.u(7);
+                #[cfg(feature = "serde")]
+                let r = guarded(|| ind.ser().ok().and_then(|b| Ind::de(k, &b).ok()));
+                #[cfg(not(feature = "serde"))]
+                let r = guarded(|| Some(ind.clone()));
+                match r {
+                    Ok(Some(restored)) => {
+                        ind = restored;
+                        ("roundtrip", Ok(()))
+                    }
+                    // a refused round trip is C06's business; C12 only asks that nothing panics
+                    Ok(None) => ("roundtrip", Ok(())),
+                    Err(e) => ("roundtrip", Err(e)),
+                }
             }
             TOp::Display => {
                 fp.u(3);
@@ -221,6 +239,32 @@ fn sweep_case_clone(kind: Kind, n: usize, s: usize, reset_phase: usize, clone_at
     Case { cfg, ops }
 }
 
+/// inputs from a pool of three ordinary values (exact ties at every distance, in particular with the value that
+/// is leaving the window) mixed with clone, round trip and reset: caches that such events do not carry over are
+/// consulted exactly when the incoming value equals an old one
+fn tie_strategy() -> BoxedStrategy<Case> {
+    any_kind()
+        .prop_flat_map(|k| cfg_for(k, 12, prop_oneof![Just(2.0), Just(0.0), Just(-1.5)].boxed()))
+        .prop_flat_map(|cfg| {
+            let w = flush_len(&cfg);
+            let val = prop_oneof![Just(6.0f64), Just(7.0), Just(8.0)];
+            let inp = (val.clone(), val.clone(), val.clone(), val, any::<bool>()).prop_map(|(a, b, c, d, scalar)| {
+                let (h, l) = (a.max(b), a.min(b));
+                Inp { bar: RawBar { o: c, h, l, c: c.clamp(l, h), v: d }, scalar }
+            });
+            let op = prop_oneof![
+                40 => inp.prop_map(TOp::Next),
+                2 => Just(TOp::RoundTrip),
+                1 => Just(TOp::CloneSwap),
+                1 => Just(TOp::Reset),
+                1 => Just(TOp::Serialize),
+            ];
+            (Just(cfg), vec(op, (2 * w + 4)..=(5 * w + 40)))
+        })
+        .prop_map(|(cfg, ops)| Case { cfg, ops })
+        .boxed()
+}
+
 fn mult_wild() -> BoxedStrategy<f64> {
     prop_oneof![Just(0.0), Just(-0.0), Just(-1.0), Just(2.5), Just(1e300), Just(-1e300), Just(f64::INFINITY), Just(f64::NAN), Just(f64::MAX), -10.0f64..10.0].boxed()
 }
@@ -239,6 +283,7 @@ fn strategy(cap: usize, maxops: usize) -> BoxedStrategy<Case> {
                 1 => Just(TOp::Display),
                 1 => Just(TOp::Debug),
                 1 => Just(TOp::Serialize),
+                1 => Just(TOp::RoundTrip),
             ];
             let lo = (w + 3).min(maxops);
             let hi = (3 * w + 30).min(maxops).max(lo);
@@ -249,7 +294,7 @@ fn strategy(cap: usize, maxops: usize) -> BoxedStrategy<Case> {
 }
 
 pub fn run(g: &mut Global) {
-    g.rule = "sweep (exhaustive over its index space): all 22 indicators x every period 1..=64 x 8 value schedules (ordinary, NaN every third, alternating +-inf, +-f64::MAX, subnormals and signed zeros, rotating specials, all-NaN flood, NaN in every high; bars with five independent fields, scalar and bar paths interleaved, multipliers 2/0/-3/1e300/NaN/inf) x a reset injected at every phase of the ring (or none), each run for 3*period+3 calls plus clone, serialize, Display, Debug; random: proptest sequences of Next(scalar or raw bar with special-valued fields) | Reset | Clone | Display | Debug | Serialize for periods up to 4096. Oracle: every call returns (catch_unwind around each call into ta; harness built with overflow checks and debug assertions). Non-trivial = the sequence contains a non-finite or extreme value followed by at least period+1 further calls; distinct by hash of (kind, parameters, operations).".into();
+    g.rule = "sweep (exhaustive over its index space): all 22 indicators x every period 1..=64 x 8 value schedules (ordinary, NaN every third, alternating +-inf, +-f64::MAX, subnormals and signed zeros, rotating specials, all-NaN flood, NaN in every high; bars with five independent fields, scalar and bar paths interleaved, multipliers 2/0/-3/1e300/NaN/inf) x a reset injected at every phase of the ring (or none), each run for 3*period+3 calls plus clone, serialize, Display, Debug; random: proptest sequences of Next(scalar or raw bar with special-valued fields) | Reset | Clone | clone_from | Display | Debug | Serialize | continue-with-the-deserialized-copy for periods up to 4096; ties_and_roundtrips: inputs from a pool of three values with clone, round trip and reset for periods up to 12. Oracle: every call returns (catch_unwind around each call into ta; harness built with overflow checks and debug assertions). Non-trivial = the sequence contains a non-finite or extreme value followed by at least period+1 further calls; distinct by hash of (kind, parameters, operations).".into();
     g.assumptions = vec![
         "termination is watched by a process watchdog: a hang ends the run with exit 2 (inconclusive), not with a violation".into(),
         "windowed periods are limited to 4096 (allocation size), allocation-free ones are covered by C11 up to usize::MAX".into(),
@@ -341,6 +386,7 @@ pub fn run(g: &mut Global) {
     let cap = g.tier.pick(512usize, 4096usize);
     let maxops = g.tier.pick(1500usize, 13000usize);
     g.random("random", g.tier.pick(20000, 100000), &move || strategy(cap, maxops), &check);
+    g.random("ties_and_roundtrips", g.tier.pick(60000, 600000), &tie_strategy, &check);
     if g.tier == Tier::Thorough {
         g.fuzz_stage("ops_total", None, 5_000_000, "random", &|b| crate::fuzzdec::decode_c12(b), &check);
     }
